@@ -11,6 +11,8 @@
 EXTENDS Containers, Json
 
 CONSTANTS MaxPrior, MaxDoc,
+          MaxDocNoEstimate,   \* sequences loaded through an array scope that reports NO size (CSV; forced): documents up to this size,
+                              \* the items beyond MaxDoc being plain values (the emplace_back / emplace_after leg: prior size < data size)
           Shard, Shards,      \* this TLC process explores the classes with (index % Shards) = Shard
           CheckDevs           \* {} : M refines A must hold.  {Dev_x,..}: the refinement is checked WITH these deviations (TLC must refute it)
 
@@ -27,7 +29,7 @@ Stale(v) == Mark(v, "stale")
 
 SeqKinds == <<"vector", "deque", "list", "flist", "valarray", "queue", "stack", "pqueue">>
 SetKinds == <<"set", "multiset", "uset", "umultiset">>
-Names == <<"a", "b", "c", "d">>
+Names == <<"a", "b", "c", "d", "e">>
 OldNames == <<"old1", "old2", "old3", "old4">>
 
 -----------------------------------------------------------------------------
@@ -176,7 +178,19 @@ GrowDoc == /\ Grows(T) /\ DocSize(doc) < MaxDocOf(T)
            /\ \E d \in GrowDocSet(T, doc) : doc' = MapDocFix(T, d)
            /\ UNCHANGED <<T, place, mode, est, mm, prior>>
 
-Next == GrowPrior \/ GrowDoc
+\* no size estimate: everything beyond the prior length goes through the "load all left items" loop
+PlainItem(Te, j) ==
+  IF Te = Bool THEN <<"b", TRUE>>
+  ELSE IF Te = Str THEN S(Names[j])
+  ELSE IF Te = VecI THEN Arr(<<I(j)>>)
+  ELSE IF Te = Rec THEN RecDoc(I(j), S("a"), S("p"))
+  ELSE I(j)
+GrowDocNoEstimate ==
+           /\ T[1] = "seq" /\ est = "zero" /\ DocSize(doc) >= MaxDoc /\ DocSize(doc) < MaxDocNoEstimate
+           /\ doc' = Arr(Append(doc[2], PlainItem(T[3], DocSize(doc) + 1)))
+           /\ UNCHANGED <<T, place, mode, est, mm, prior>>
+
+Next == GrowPrior \/ GrowDoc \/ GrowDocNoEstimate
 Spec == Init /\ [][Next]_vars
 
 -----------------------------------------------------------------------------
